@@ -15,7 +15,7 @@ SEEDS = [
  ('C07-1', '/tmp/wt_C07/_out/1', 'C07', 'a version-0 third-party block parsed through UnverifiedBiscuit::unsafe_deprecated_deserialize and then verify()',
   {'C07': 'VIOLATION format::SerializedBiscuit::verify_inner::loop0.prefix', 'C01': 'VIOLATION same obligation'}),
  ('C07-2', '/tmp/wt_C07/_out/2', 'C07', 'a first-party block placed before a third-party block (key id -> block id map built with the wrong index)',
-  {'C07': 'NOT detected (exit 0): AuthorizerBuilder::build_inner is enumerate / HashMap::entry code outside the units; listed under not_covered', 'C03': 'NOT detected'}),
+  {'C07': 'UNDECIDED (exit 2): the key-map loop is rewritten into filter_map + enumerate, rewrite R19 no longer applies (lost anchor); the same defect written in place (.push(i)) is a canary of unit loadb and is rejected by build_inner::loop0.map', 'C03': 'UNDECIDED (same unit)', 'history': 'first run NOT detected (exit 0, build_inner outside the units); unit loadb now puts build_inner under contract (keymap_upto)'}),
  ('C08-1', '/tmp/wt_C08/_out/1', 'C08', 'third_party_request() on a sealed token through the UnverifiedBiscuit API',
   {'C08': 'VIOLATION token::third_party::ThirdPartyRequest::from_container::ensures.sealed', 'C07': 'VIOLATION same obligation'}),
  ('C08-2', '/tmp/wt_C08/_out/2', 'C08', 'a sealed token whose final signature bytes are malformed for the key algorithm (length != 64 / not DER): error variant swallowed, trailing blocks can be dropped',
@@ -46,7 +46,7 @@ SEEDS = [
  ('C06-1', '/tmp/wt_C06/_out/1', 'C06', 'exactly i64::MIN / -1 (checked_div replaced by an explicit zero test + plain division)',
   {'C06': 'VIOLATION datalog::expression::Binary::evaluate::ensures.div_overflow and the division side condition [i / j]'}),
  ('C06-2', '/tmp/wt_C06/_out/2', 'C06', 'a closure parameter that shadows a bound variable together with an EMPTY set / array / map (shadowing test moved into the per-element binding)',
-  {'C06': 'UNDECIDED (exit 2): the per-item rewrite of the shadowing expression loses its anchor; closure evaluation is listed under not_covered; NOT detected'}),
+  {'C06': 'UNDECIDED (exit 2): the change moves the shadowing test into a new helper function (bind_param) for which the unit has no contract: the front end rejects the unit. Deleting the shadowing test in place is a VIOLATION (Expression::evaluate call-pre no_shadow, witness closure_shadowing)', 'history': 'at first evaluate_with_closure was assumed (slice patterns); now under contract via R21 / A4'}),
  ('C10-1', '/tmp/wt_C10/_out/1', 'C10', 'a run that hits a budget (iterations not accumulated on the early-return paths), then a retry with authorize / query',
   {'C10': 'UNDECIDED (exit 2): the mutation restructures the `let res = loop { break .. }` shape the loop contract is attached to (lost anchor); NOT detected'}),
  ('C10-2', '/tmp/wt_C10/_out/2', 'C10', 'a slow but successful check in a block >= 1 (clock read only after a non-matching query)',
